@@ -955,11 +955,65 @@ def datetime_clauses(T, rng, rep, fails, n):
                     fail("%s.convert:bad-text-accepted" % nm, "%s.convert(%r) -> %r" % (nm, bt, o[1]), type=nm, text=bt)
 
 
+def scratch_env():
+    """ofxtools.config reads / creates its directories under XDG_*: point them at a scratch directory before it is first imported"""
+    import sys
+    if "ofxtools.config" not in sys.modules:
+        d = os.path.join(C.BUILD, "scratch", "xdg-%d" % os.getpid())
+        os.makedirs(d, exist_ok=True)
+        for k in ("XDG_DATA_HOME", "XDG_CONFIG_HOME", "XDG_CACHE_HOME"):
+            os.environ[k] = d
+
+
+def ofxget_front_door(T, rng, rep, fails, n):
+    """the public entry point that feeds user-typed dates to DateTime.convert: ofxtools.scripts.ofxget.convert_datetime(args) must give, for every text,
+    the value DateTime().convert gives, or refuse when it refuses (the converter's own denotation is C09's / the clauses above)"""
+    scratch_env()
+    try:
+        import ofxtools.scripts.ofxget as G
+    except Exception as ex:
+        rep.extra["ofxget_front_door"] = "skipped: %r" % (ex,)
+        return
+    conv = T.DateTime()
+    texts = ["", None, "20070131", "2007-01-31", "2007/01/31", "2007-0131", "200701-31", "-20070131", "20070131-", "2007/0131", "20070131120000[-5:EST]", "20070131120000.000[-5]",
+             "20070131120000[-3.30]", "20070131120000.123[-0.30:X]", "20070131120000[+5.30]", "20070131120000[5]", "20070131120000[-12]", "20070131120000.000[-5:E-S/T]",
+             "2007013112", "20070131 12:00", "31/01/2007", "01-31-2007", "2007.01.31", "20070131120000[--5]", "20070131120000[-]"]
+    for _ in range(n):
+        y, mo, dd = rng.randrange(1000, 9999), rng.randrange(1, 13), rng.randrange(1, 29)
+        hh, mi, ss, ms = rng.randrange(24), rng.randrange(60), rng.randrange(60), rng.randrange(1000)
+        offh = rng.randrange(-12, 15)
+        tail = rng.choice(["", ".%03d" % ms, ".%03d[%d]" % (ms, offh), ".%03d[%+d:XYZ]" % (ms, offh), "[%d]" % offh, ".%03d[%+d.30]" % (ms, offh), "[-%d.%02d:A-B]" % (rng.randrange(13), rng.randrange(60))])
+        t = "%04d%02d%02d%s" % (y, mo, dd, rng.choice(["", "%02d%02d%02d%s" % (hh, mi, ss, tail)]))
+        texts.append(t)
+        r = rng.random()
+        if r < 0.5:
+            i = rng.randrange(len(t) + 1)
+            texts.append(t[:i] + rng.choice("-/-/ .:") + t[i:])          # a separator typed into the text: not OFX notation
+        if r < 0.25:
+            texts.append("%04d-%02d-%02d" % (y, mo, dd)); texts.append("%04d/%02d/%02d" % (y, mo, dd))
+    for t in texts:
+        want = call(T, conv, "convert", t or None)
+        for slot in ("dtstart", "dtend", "dtasof"):
+            args = {"dtstart": None, "dtend": "", "dtasof": None}
+            args[slot] = t
+            try:
+                got = ("ok", G.convert_datetime(args)[slot[2:]], 0)
+            except Exception as ex:
+                got = ("reject", type(ex).__name__)
+            rep.count(("ofxget", slot, t), nontrivial=(got[0] == "ok" and got[1] is not None), kind="ofxget.convert_datetime:%s" % got[0])
+            if (want[0] == "ok") != (got[0] == "ok") or (want[0] == "ok" and want[1] != got[1]):
+                fails.append(C.Failure("ofxget.convert_datetime:differs-from-DateTime.convert",
+                                       "ofxget.convert_datetime({%r: %r}) -> %r but DateTime().convert(%r) -> %r" % (slot, t, got, t or None, want),
+                                       dict(kind="frontdoor", slot=slot, text=t)))
+                break
+
+
 RULE = ("corpus first; structured stream: every type x parameterisation (lengths None/1..40, scales None/0..8, both required flags, token sets of the live model classes, "
         "ListElement nesting) x boundary-biased values (length n-1/n/n+1, +-(10^n-1)/+-10^n, halves at the quantum, 28/29-digit coefficients, signed zeros, specials) and "
         "their texts in every accepted notation; malformed stream: single-character corruptions, separators, blanks, underscores, Unicode digits, huge exponents; "
         "wrong-type stream: every pyval constructor x every type, both directions; DateTime/Time (implementation and oracle only, model = C09 engine): aware values "
-        "over all whole-minute offsets incl. -0:mm, rounding edges, five notations, None, wrong types, malformed texts. non-trivial = the implementation returned a value other than None; distinct by (element, operation, value)")
+        "over all whole-minute offsets incl. -0:mm, rounding edges, five notations, None, wrong types, malformed texts, digits of other scripts; the same text classes through the "
+        "public entry point ofxget.convert_datetime. non-trivial = the implementation returned a value other than None; distinct by (element, operation, value)")
 
 
 def run(rep, tier, rng):
@@ -974,6 +1028,7 @@ def run(rep, tier, rng):
     try:
         predicate(T, done, convs, rep.failures)
         datetime_clauses(T, rng, rep, rep.failures, 3000 if thorough else 400)
+        ofxget_front_door(T, rng, rep, rep.failures, 2000 if thorough else 150)
     except Exception as ex:          # an oracle problem must not hide the correspondence result
         import traceback
         traceback.print_exc()
@@ -995,6 +1050,21 @@ def run(rep, tier, rng):
 def replay(obj):
     T = types()
     r = obj["replay"]
+    if r.get("kind") == "frontdoor":
+        scratch_env()
+        import ofxtools.scripts.ofxget as G
+        args = {"dtstart": None, "dtend": "", "dtasof": None}
+        args[r["slot"]] = r["text"]
+        want = call(T, T.DateTime(), "convert", r["text"] or None)
+        try:
+            got = ("ok", G.convert_datetime(args)[r["slot"][2:]], 0)
+        except Exception as ex:
+            got = ("reject", type(ex).__name__)
+        print("replay ofxget.convert_datetime({%r: %r}) -> %r; DateTime().convert -> %r" % (r["slot"], r["text"], got, want))
+        bad = (want[0] == "ok") != (got[0] == "ok") or (want[0] == "ok" and want[1] != got[1])
+        if bad:
+            print("VIOLATION property=C10 replay=(this file) %s" % obj.get("key"))
+        return 1 if bad else 0
     if r.get("kind") == "datetime":
         fails = []
         fail = lambda key, what, **kw: fails.append((key, what))
